@@ -24,8 +24,9 @@ package main
 //   u2  an account-format name without a rule on chain in the middle of a path: strict
 //       "not satisfied", liberal "satisfied" (anyone may create that account anyway);
 //   u3  an EMPTY listed key set: strict "never satisfied", liberal "vacuously contained";
-//   u4  a URI with an empty path component: strict rejects the whole list (fail closed),
-//       liberal ignores that URI.
+//   u4  a URI with an empty path component or with a name that is not account-shaped before
+//       the signing key: it contributes nothing; strict rejects the whole list (fail closed),
+//       liberal ignores just that URI.
 
 import (
 	"fmt"
@@ -160,10 +161,12 @@ type World struct {
 }
 
 func (w *World) sat(rule *MRule, paths [][]int8, bare uint32, liberal bool, depth int) bool {
-	return rule.accepts(w.supporters(paths, bare, liberal, depth), liberal)
+	return rule.accepts(w.supporters(paths, bare, liberal, depth, nil, ""), liberal)
 }
 
-func (w *World) supporters(paths [][]int8, bare uint32, liberal bool, depth int) uint32 {
+// supporters computes the supporter set of one rule node. When tr is non-nil the supporter
+// set of every account node visited is recorded under its path (diagnostics only).
+func (w *World) supporters(paths [][]int8, bare uint32, liberal bool, depth int, tr map[string]uint32, at string) uint32 {
 	var supp, done uint32
 	if depth > 8 {
 		return 0
@@ -191,7 +194,13 @@ func (w *World) supporters(paths [][]int8, bare uint32, liberal bool, depth int)
 		}
 		switch {
 		case w.Rules[c] != nil:
-			if w.sat(w.Rules[c], sub[:n], bare, liberal, depth+1) {
+			var s uint32
+			if tr != nil {
+				s = w.supporters(sub[:n], bare, liberal, depth+1, tr, at+"/"+w.N.list[c])
+			} else {
+				s = w.supporters(sub[:n], bare, liberal, depth+1, nil, "")
+			}
+			if w.Rules[c].accepts(s, liberal) {
 				supp |= bit
 			}
 		case w.N.kind[c] == kAcctFmt:
@@ -202,6 +211,9 @@ func (w *World) supporters(paths [][]int8, bare uint32, liberal bool, depth int)
 	}
 	if liberal {
 		supp |= bare
+	}
+	if tr != nil {
+		tr[at] = supp
 	}
 	return supp
 }
@@ -224,9 +236,16 @@ func combine(strict, liberal bool) int {
 	return Unspec
 }
 
+// hasEmpty: the URI is syntactically broken — an empty component, or a name that is not even
+// account-shaped (a key, XC + 17 digits ...) standing BEFORE the signing key. Such a name is
+// never verified and contributes nothing; whether the rest of the list is still evaluated
+// (liberal) or the whole list refused (strict, fail closed) is left open (u4).
 func hasEmpty(w *World, p []int8) bool {
-	for _, c := range p {
+	for i, c := range p {
 		if w.N.kind[c] == kEmpty {
+			return true
+		}
+		if i < len(p)-1 && w.N.kind[c] != kAcctFmt {
 			return true
 		}
 	}
